@@ -140,6 +140,10 @@ func NewReceiver(p2pHost host.Host, topicName string, options ...Option) (*Recei
 
 	if p2pHost != nil {
 		r.hostID = p2pHost.ID()
+	}
+	// The watcher reads the pubsub subscription: start it only if there is
+	// one. A host without a topic receives direct announcements only.
+	if p2pHost != nil && topicSub != nil {
 		watchCtx, cancelWatch := context.WithCancel(context.Background())
 		r.cancelWatch = cancelWatch
 		r.watchDone = make(chan struct{})
